@@ -40,6 +40,7 @@ func c09Gen(t *rapid.T) c04Case {
 	c.Queue = rapid.SampledFrom([]int{1, 2, 100}).Draw(t, "queue")
 	c.FlushMS = rapid.SampledFrom([]int{0, 1, 20}).Draw(t, "flush")
 	c.Tape = rapid.SliceOfN(rapid.Byte(), 0, 8).Draw(t, "tape")
+	c.Log = rapid.SampledFrom([]string{"", "", "", "json", "text"}).Draw(t, "log")
 	times := []int{0, 0, 1, 16, 17, 20, 21, 48, 50, 112, 300}
 	ne := rapid.IntRange(2, 8).Draw(t, "nevents")
 	for i := 0; i < ne; i++ {
